@@ -5,7 +5,6 @@ package stream
 
 import (
 	"context"
-	"fmt"
 
 	"github.com/apache/skywalking-banyandb/api/common"
 	databasev1 "github.com/apache/skywalking-banyandb/api/proto/banyandb/database/v1"
@@ -96,23 +95,11 @@ func VerifScanPart(rows []VerifRow, sids []uint64, minTs, maxTs int64, blockFilt
 	return res, pi.error()
 }
 
-// VerifBlockSummary describes the pruning summary the writer produced for one tag of one block.
-type VerifBlockSummary struct {
-	Kind      string // "none" | "bloom" | "dict"
-	Tag       string
-	Min       []byte
-	Max       []byte
-	BloomBits []uint64
-	Dict      [][]byte
-	SeriesID  uint64
-	MinTs     int64
-	BloomN    int
-	ValueType pbv1.ValueType
-}
-
-// VerifPartSummaries writes rows and returns, per block and tag, the summary that the read path reconstructs
-// (tagFamilyFilters.unmarshal), plus a closure evaluating a compiled filter on every block.
-func VerifPartSummaries(rows []VerifRow, blockFilter index.Filter) (sums []VerifBlockSummary, skips []string, err error) {
+// VerifEachSummary writes rows through the real writer and calls fn for every (block, tag) summary that the read
+// path reconstructs (tagFamilyFilters.unmarshal): kind none|bloom|dict, min/max, and the filter's own probes.
+func VerifEachSummary(rows []VerifRow, fn func(sid uint64, lo, hi int64, tag, kind string, mn, mx []byte,
+	mc func([]byte) bool, ca func([][]byte) bool),
+) error {
 	es := verifElements(rows)
 	defer releaseElements(es)
 	mp := generateMemPart()
@@ -125,7 +112,7 @@ func VerifPartSummaries(rows []VerifRow, blockFilter index.Filter) (sums []Verif
 		pi.p = p
 		bms, rerr := pi.readPrimaryBlockAll(pbm)
 		if rerr != nil {
-			return nil, nil, rerr
+			return rerr
 		}
 		for j := range bms {
 			bm := &bms[j]
@@ -133,30 +120,24 @@ func VerifPartSummaries(rows []VerifRow, blockFilter index.Filter) (sums []Verif
 			tfs.unmarshal(bm.tagFamilies, p.tagFamilyMetadata, p.tagFamilyFilter, p.tagFamilies)
 			for _, tff := range tfs.tagFamilyFilters {
 				for name, tf := range *tff {
-					s := VerifBlockSummary{Tag: name, SeriesID: uint64(bm.seriesID), MinTs: bm.timestamps.min, Min: append([]byte(nil), tf.min...), Max: append([]byte(nil), tf.max...), Kind: "none"}
+					kind := "none"
+					mc := func([]byte) bool { return true }
+					ca := func([][]byte) bool { return true }
 					switch f := tf.filter.(type) {
 					case *filter.BloomFilter:
-						s.Kind = "bloom"
-						s.BloomN = f.N()
-						s.BloomBits = append([]uint64(nil), f.Bits()...)
+						kind = "bloom"
+						mc, ca = f.MightContain, f.ContainsAll
 					case *filter.DictionaryFilter:
-						s.Kind = "dict"
+						kind = "dict"
+						mc, ca = f.MightContain, f.ContainsAll
 					}
-					sums = append(sums, s)
-				}
-			}
-			if blockFilter != nil {
-				sk, serr := blockFilter.ShouldSkip(tfs)
-				if serr != nil {
-					skips = append(skips, fmt.Sprintf("%d@%d:ERR", bm.seriesID, bm.timestamps.min))
-				} else {
-					skips = append(skips, fmt.Sprintf("%d@%d:%v", bm.seriesID, bm.timestamps.min, sk))
+					fn(uint64(bm.seriesID), bm.timestamps.min, bm.timestamps.max, name, kind, tf.min, tf.max, mc, ca)
 				}
 			}
 			releaseTagFamilyFilters(tfs)
 		}
 	}
-	return sums, skips, nil
+	return nil
 }
 
 func (pi *partIter) readPrimaryBlockAll(mr *primaryBlockMetadata) ([]blockMetadata, error) {
